@@ -1,7 +1,7 @@
 (* C17 -- GC only touches eligible files and runs at most once per bucket.
    Property theorems only; proofs live in proofs/GcRangeProofs.v, GcTouch.v, GcReqProofs.v. *)
 From Coq Require Import NArith ZArith List Bool String.
-From GB Require Import Consts Words Hash Compress Bucket BucketOpen Gc GcReq CheckL2 GcRangeProofs GcTouch GcReqProofs.
+From GB Require Import Consts Words Hash Compress Bucket BucketOpen Gc GcReq CheckL2 RefMap Refine GcRangeProofs GcTouch GcReqProofs GcView GcMerge.
 Import ListNotations.
 Open Scope N_scope.
 
@@ -39,6 +39,21 @@ Theorem C17_touches_only_partial : forall cf hf b begin_ end_ merge,
   untouched (fun c => (dst0 <= c <= Nat.max end_ (gc_dst st))%nat) b (fst (gc_pass cf hf b begin_ end_ merge)).
 Proof. exact gc_pass_touches_only. Qed.
 Print Assumptions C17_touches_only_partial.
+
+(* (3b) ... and on every state the C01 relation and the GC precondition describe (every state reached by client
+   operations, restarts and earlier passes), with or without hint merge, the last destination never lies above the range:
+   NOTHING outside [dst0, end] is touched, dst0 <= begin, and the files strictly between dst0 and begin held no
+   record before the pass -- so the only earlier file with data that the pass writes to is dst0 itself (appended
+   to, old part unchanged: C18_pass_layout). *)
+Theorem C17_touches_only_range : forall (cf : cfg) (hf : bytes -> N) (K : list bytes),
+  (forall k1 k2, In k1 K -> In k2 K -> hf k1 = hf k2 -> k1 = k2) -> 0 < c_splitcap cf ->
+  forall b m begin_ end_ merge,
+  Rel hf K b m -> GPre cf hf K b -> (begin_ <= end_ < b_head b)%nat ->
+  let dst0 := pick_dst cf (before_bucket cf b merge) begin_ begin_ in
+  (dst0 <= begin_)%nat /\ (forall c, (dst0 < c < begin_)%nat -> k_disk (chunk_at b c) = []) /\
+  untouched (fun c => (dst0 <= c <= end_)%nat) b (fst (gc_pass cf hf b begin_ end_ merge)).
+Proof. exact gc_pass_touches_range_any. Qed.
+Print Assumptions C17_touches_only_range.
 
 (* (4) At most one pass per bucket, for ALL numbers of requests, ALL target buckets and ALL schedules of the
    request protocol (check under read lock / reserve / pass start / pass end as separate atomic steps). *)
